@@ -79,7 +79,7 @@ def parseFVal (ws : List String) : Option FVal :=
   | _ => none
 
 def showCheckErr : CheckErr → String
-  | .keyword => "keyword" | .notFunc => "notfunc" | .param i => s!"param{i}" | .ret => "ret" | .ret1 => "ret1"
+  | .keyword => "keyword" | .notFunc => "notfunc" | .nilFunc => "nilfunc" | .param i => s!"param{i}" | .ret => "ret" | .ret1 => "ret1"
   | .ret2NotError => "ret2" | .tooManyResults => "toomany"
 
 def handle (args : List String) : String :=
